@@ -2,6 +2,7 @@ package main
 
 import (
 	"fmt"
+	"go/constant"
 	"go/types"
 	"strings"
 
@@ -111,10 +112,52 @@ func (v *Verifier) doCall(st *State, in ssa.Instruction, c *ssa.CallCommon) Valu
 		}
 		return v.havocCall(st, in, "callee "+key+" without contract", retT)
 	}
+	if ct.Delegate != nil && c.IsInvoke() {
+		// the interface method is specified by the method of one concrete implementation: the
+		// dynamic type of the receiver must be that implementation (obligation), then its contract applies
+		se := &SpecEnv{e: v.env, s: st, vars: map[string]Value{}, pkg: ct.Pkg, qn: &v.qn}
+		dt := se.resolveType(ct.Delegate)
+		v.emit(st, "pre", "dyn."+c.Method.Name()+"@"+v.siteLabel(in), v.env.valIsType(args[0], dt), v.contractProps(), "receiver of "+key+" is a "+typeName(dt), in)
+		st.assume(v.env.valIsType(args[0], dt))
+		recv := v.env.valPayload(args[0], dt)
+		recv.GoT = dt
+		nargs := append([]Value{recv}, args[1:]...)
+		star, tn := "", typeName(dt)
+		if p, ok := dt.(*types.Pointer); ok {
+			star = "*"
+			if n, ok := p.Elem().(*types.Named); ok {
+				tn = n.Obj().Name()
+			}
+		} else if n, ok := dt.(*types.Named); ok {
+			tn = n.Obj().Name()
+		}
+		dkey := fmt.Sprintf("%s.(%s%s).%s", ct.Pkg, star, tn, c.Method.Name())
+		dct := v.prog.contract[dkey]
+		dfn := v.prog.funcs[dkey]
+		if dct == nil || dfn == nil {
+			return v.havocCall(st, in, "delegate "+dkey+" without contract", retT)
+		}
+		if dct.Trusted {
+			v.trustedUsed["trusted:"+dkey] = true
+		}
+		var names []string
+		for _, p := range dfn.Params {
+			names = append(names, p.Name())
+		}
+		v.checkNonNil(st, in, recv)
+		return v.applyContract(st, in, dkey, dct, names, nargs, retT, nil)
+	}
 	if ct.Trusted {
 		v.trustedUsed["trusted:"+key] = true
 	}
 	return v.applyContract(st, in, key, ct, v.paramNames(c, fn, ct), args, retT, nil)
+}
+
+func (v *Verifier) contractProps() []string {
+	if v.contract != nil {
+		return v.contract.Props
+	}
+	return nil
 }
 
 // havocCall models a call whose callee has no contract: everything may change, the result is
@@ -702,6 +745,15 @@ type nativeModFn func(v *Verifier, c *ssa.CallCommon, maps map[string]string) bo
 var nativeStubs = map[string]nativeFn{}
 var nativeMods = map[string]nativeModFn{}
 
+// errIs models errors.Is through up to three levels of %w wrapping (deeper chains do not occur in mkdb).
+func errIs(e *Env, err, target string) string {
+	e.ctx.declFun("errwraps", []string{"Val"}, "Val")
+	w1 := app("errwraps", err)
+	w2 := app("errwraps", w1)
+	w3 := app("errwraps", w2)
+	return and(not(eq(err, "VNil")), or(eq(err, target), and(not(eq(w1, "VNil")), or(eq(w1, target), and(not(eq(w2, "VNil")), or(eq(w2, target), eq(w3, target)))))))
+}
+
 func pureMods(v *Verifier, c *ssa.CallCommon, maps map[string]string) bool { return false }
 
 // pureLib: library functions without effect on the modelled state whose result is left
@@ -753,7 +805,29 @@ func init() {
 	nativeMods["fmt.Sprint"] = pureMods
 	nativeStubs["fmt.Errorf"] = func(v *Verifier, st *State, in ssa.Instruction, c *ssa.CallCommon, args []Value, retT types.Type) Value {
 		r := v.env.freshErr(st)
-		// %w wrapping: errors.Is(result, x) for every error argument x that is wrapped
+		v.env.ctx.declFun("errwraps", []string{"Val"}, "Val")
+		wrapped := "VNil"
+		// %w wrapping: the k-th verb being %w wraps the k-th variadic argument
+		if fc, ok := c.Args[0].(*ssa.Const); ok && fc.Value != nil && len(c.Args) == 2 {
+			format := constant.StringVal(fc.Value)
+			if elems, ok := v.varargElems(st, c.Args[1]); ok {
+				k := 0
+				for i := 0; i+1 < len(format); i++ {
+					if format[i] != '%' {
+						continue
+					}
+					if format[i+1] == '%' {
+						i++
+						continue
+					}
+					if format[i+1] == 'w' && k < len(elems) {
+						wrapped = elems[k]
+					}
+					k++
+				}
+			}
+		}
+		st.assume(eq(app("errwraps", r.T), wrapped))
 		return r
 	}
 	nativeMods["fmt.Errorf"] = pureMods
@@ -769,11 +843,7 @@ func init() {
 	}
 	nativeMods["errors.New"] = pureMods
 	nativeStubs["errors.Is"] = func(v *Verifier, st *State, in ssa.Instruction, c *ssa.CallCommon, args []Value, retT types.Type) Value {
-		r := v.freshValue(st, "errors.is", retT)
-		// errors.Is(e, e) holds; errors.Is(nil, t) is false for t != nil
-		st.assume(implies(eq(args[0].T, args[1].T), r.T))
-		st.assume(implies(and(eq(args[0].T, "VNil"), not(eq(args[1].T, "VNil"))), not(r.T)))
-		return r
+		return Value{T: errIs(v.env, args[0].T, args[1].T), Sort: "Bool", GoT: retT}
 	}
 	nativeMods["errors.Is"] = pureMods
 	nativeStubs["strings.ToLower"] = func(v *Verifier, st *State, in ssa.Instruction, c *ssa.CallCommon, args []Value, retT types.Type) Value {
